@@ -134,15 +134,23 @@ pub fn gen_c06(r: &mut Rng, tier: Tier) -> Case {
     let symlinks = o.symlinks;
     let world = gen::gen_world(r, &o);
     let tree0 = world.render();
-    let config = gen::default_config(r, &lang, false);
+    let mut mapped: Vec<String> = world.items.iter().filter(|i| i.annotated && i.kind != gen::Kind::Const).map(|i| i.name.clone()).collect();
+    r.shuffle(&mut mapped);
+    if !r.chance(1, 4) {
+        mapped.clear();
+    }
+    let config = gen::default_config_with(r, &lang, false, &mapped);
     let mut versions = vec![tree0];
     // the CLI accepts several directories: sometimes hand it the crate directories one by one
-    let roots: Vec<String> = if r.chance(1, 5) {
-        let mut v: Vec<String> = world.crates.iter().map(|c| c.dir.clone()).collect();
-        r.shuffle(&mut v);
-        v
-    } else {
-        vec![]
+    let roots: Vec<String> = match r.below(12) {
+        0 | 1 => {
+            let mut v: Vec<String> = world.crates.iter().map(|c| c.dir.clone()).collect();
+            r.shuffle(&mut v);
+            v
+        }
+        // overlapping roots: the files below the second root are delivered twice
+        2 => vec![".".to_string(), world.crates[0].dir.clone()],
+        _ => vec![],
     };
     let extra: Vec<String> = match r.below(12) {
         0 => vec!["--target-os".into(), "linux".into()],
@@ -171,7 +179,11 @@ pub fn gen_c06(r: &mut Rng, tier: Tier) -> Case {
                 inv.sched = random_sched(r);
             }
             3 => inv.hash_seed = r.next(),
-            5 if roots.is_empty() && !world.noise && world.crates.len() > 1 => {
+            5 if roots.is_empty()
+                && !world.noise
+                && world.crates.len() > 1
+                && !world.crates.iter().any(|a| world.crates.iter().any(|b| a.dir != b.dir && b.dir.starts_with(&format!("{}/", a.dir)))) =>
+            {
                 // the same files handed over as one root per crate directory instead of one
                 // root for the whole workspace
                 let mut v: Vec<String> = world.crates.iter().map(|c| c.dir.clone()).collect();
@@ -418,6 +430,22 @@ pub fn gen_c07(r: &mut Rng, tier: Tier) -> Case {
             }
         }
     }
+    // a file name that is not valid UTF-8 (Latin-1 e-acute), sometimes
+    if r.chance(1, 10) {
+        let idx: Vec<usize> = tree.iter().enumerate().filter(|(_, f)| f.kind == FileKind::Text && f.path.ends_with(".rs") && f.path.contains("/src/")).map(|(i, _)| i).collect();
+        if !idx.is_empty() {
+            let i = *r.pick(&idx);
+            let old = tree[i].path.clone();
+            let new = format!("{}/caf%E9 au lait.rs", old.rsplit_once('/').map(|x| x.0).unwrap_or(""));
+            if !tree.iter().any(|f| f.path == new) {
+                for n in notes.iter_mut() {
+                    *n = n.replace(&old, &new);
+                }
+                tree[i].path = new;
+                tree.sort_by(|a, b| a.path.cmp(&b.path));
+            }
+        }
+    }
     let nops = r.range(1, 3) as usize;
     let mut ops = vec![];
     for _ in 0..nops {
@@ -462,10 +490,10 @@ pub fn gen_c07(r: &mut Rng, tier: Tier) -> Case {
             let texts: Vec<&SrcFile> = tree.iter().filter(|f| f.kind == FileKind::Text && f.path.ends_with(".rs")).collect();
             let f = match r.below(10) {
                 0..=3 if !texts.is_empty() => Fault::Read {
-                    path: format!("ws/{}", r.pick(&texts).path),
+                    path: format!("ws/{}", super::exec::decode_path(&r.pick(&texts).path).to_string_lossy()),
                     kind: r.pick(&[IoKind::Eacces, IoKind::Eio, IoKind::Enoent]).clone(),
                 },
-                4 if !texts.is_empty() => Fault::SlowRead { path: format!("ws/{}", r.pick(&texts).path), yields: r.range(1, 40) as u32 },
+                4 if !texts.is_empty() => Fault::SlowRead { path: format!("ws/{}", super::exec::decode_path(&r.pick(&texts).path).to_string_lossy()), yields: r.range(1, 40) as u32 },
                 5 => {
                     let f = r.pick(&tree);
                     let dir = Path::new(&f.path).parent().map(|p| p.to_string_lossy().into_owned()).unwrap_or_default();
@@ -510,7 +538,8 @@ fn eval_c07(case: &Case, sc: &mut Scratch, res: &mut EvalResult) {
             }
         }
     }
-    let annotated: std::collections::BTreeSet<String> = tree.iter().filter(|f| f.is_annotated()).map(|f| format!("ws/{}", f.path)).collect();
+    let lossy = |p: &str| super::exec::decode_path(p).to_string_lossy().into_owned();
+    let annotated: std::collections::BTreeSet<String> = tree.iter().filter(|f| f.is_annotated()).map(|f| format!("ws/{}", lossy(&f.path))).collect();
     for (idx, inv) in case.ops.iter().enumerate() {
         let o = run_invocation(sc, tree, inv, &out);
         res.stats.record(td, tree.len(), inv, &o, 1, false);
@@ -554,7 +583,16 @@ fn eval_c07(case: &Case, sc: &mut Scratch, res: &mut EvalResult) {
                         silently.push(format!("{} ({})", op.path, op.fault.clone().unwrap()));
                     }
                 }
+                // a root directory that does not exist cannot have been processed
+                for root in &inv.roots {
+                    let rp = root.trim_start_matches("./").trim_end_matches('/');
+                    let exists = rp.is_empty() || rp == "." || tree.iter().any(|f| f.path == rp || f.path.starts_with(&format!("{rp}/")));
+                    if !exists {
+                        silently.push(format!("ws/{rp} (missing_root)"));
+                    }
+                }
                 for p in &must_fail_paths {
+                    let p = &lossy(p);
                     // only if the walker can see it and, in folder mode, it belongs to a crate
                     if o.oplog.iter().any(|op| op.op == "read_src" && op.path == format!("ws/{p}")) {
                         silently.push(format!("ws/{p} (unparsable annotated input)"));
@@ -588,8 +626,16 @@ fn eval_c07(case: &Case, sc: &mut Scratch, res: &mut EvalResult) {
                 let parse_related = all.contains("Parsing failed") || all.contains("Failed traversing") || all.contains("Parsing error") || all.contains("Errors encountered during parsing");
                 if parse_related {
                     let mut candidates: Vec<String> = read_culprits.clone();
-                    candidates.extend(edge_paths.iter().map(|p| format!("ws/{p}")));
-                    candidates.extend(tree.iter().filter(|f| f.kind != FileKind::Text).map(|f| format!("ws/{}", f.path)));
+                    // (a path may show up lossily or Debug-escaped when it is not valid UTF-8)
+                    let read_forms: Vec<String> = tree
+                        .iter()
+                        .filter(|f| read_culprits.contains(&format!("ws/{}", lossy(&f.path))))
+                        .flat_map(|f| super::exec::path_forms(&f.path))
+                        .map(|p| format!("ws/{p}"))
+                        .collect();
+                    candidates.extend(read_forms);
+                    candidates.extend(edge_paths.iter().flat_map(|p| super::exec::path_forms(p)).map(|p| format!("ws/{p}")));
+                    candidates.extend(tree.iter().filter(|f| f.kind != FileKind::Text).flat_map(|f| super::exec::path_forms(&f.path)).map(|p| format!("ws/{p}")));
                     // a root directory that does not exist (or is a file) is an offending path, too
                     candidates.extend(inv.roots.iter().map(|r| format!("ws/{}", r.trim_start_matches("./"))));
                     if !candidates.is_empty() && !candidates.iter().any(|c| all.contains(c.as_str())) {
@@ -687,7 +733,21 @@ pub fn gen_c08(r: &mut Rng, tier: Tier) -> Case {
         t
     };
     let depth = if r.chance(1, 4) { r.range(1, 2) } else { 0 };
-    let poison_text = wrap(p.poison, depth);
+    // sometimes the file with the construct also repeats a valid item that another file already
+    // defines (the android.rs / ios.rs pattern: one type defined per platform)
+    let companion: String = if r.chance(1, 6) {
+        let cands: Vec<&String> = good
+            .iter()
+            .filter(|f| f.kind == FileKind::Text && f.path.ends_with(".rs") && f.path.contains("/src/"))
+            .flat_map(|f| f.chunks.iter())
+            .filter(|c| c.contains("#[typeshare]") && !c.contains("pub const") && !c.contains("pub mod"))
+            .collect();
+        if cands.is_empty() { String::new() } else { (*r.pick(&cands)).clone() }
+    } else {
+        String::new()
+    };
+    let with_companion = |t: String| if companion.is_empty() { t } else { format!("{companion}{t}") };
+    let poison_text = with_companion(wrap(p.poison, depth));
     // the skip marker in one of its equivalent spellings
     let spell = |r: &mut Rng, s: &str| -> String {
         let alts = [
@@ -708,7 +768,7 @@ pub fn gen_c08(r: &mut Rng, tier: Tier) -> Case {
             s.replacen("#[typeshare(skip)]", &a, 1)
         }
     };
-    let skipped_text = p.skipped.map(|s| wrap(&spell(r, s), depth));
+    let skipped_text = p.skipped.map(|s| with_companion(wrap(&spell(r, s), depth)));
     let mut poisoned = good.clone();
     // same planting position for the poisoned and the skipped variant
     let mut r2 = r.clone();
@@ -916,7 +976,12 @@ pub fn gen_c17(r: &mut Rng, tier: Tier) -> Case {
         worlds.push(w);
     }
     let versions: Vec<Tree> = worlds.iter().map(|w| w.render()).collect();
-    let config = gen::default_config(r, &lang, false);
+    let mut mapped: Vec<String> = worlds[0].items.iter().filter(|i| i.annotated && i.kind != gen::Kind::Const).map(|i| i.name.clone()).collect();
+    r.shuffle(&mut mapped);
+    if !r.chance(1, 5) {
+        mapped.clear();
+    }
+    let config = gen::default_config_with(r, &lang, false, &mapped);
     let fault_case = r.chance(4, 10);
     let nops = r.range(2, 6) as usize;
     let mut ops: Vec<Inv> = vec![];
@@ -966,8 +1031,15 @@ pub fn gen_c17(r: &mut Rng, tier: Tier) -> Case {
         notes.push("clock_skew".into());
     }
     let mut preseed = if r.chance(1, 4) { gen_preseed(r, &lang, &mode, &worlds[0]) } else { vec![] };
+    // output path shape: a bare file name in the working directory (single-file mode)
+    let bare = mode == Mode::File && r.chance(1, 6);
+    if bare {
+        for o in ops.iter_mut() {
+            o.out_sub = super::exec::BARE.to_string();
+        }
+    }
     // output path shape: nested directories that do not exist yet, trailing slash
-    if r.chance(1, 6) {
+    if !bare && r.chance(1, 6) {
         let sub = r.pick(&["gen/nested", "gen/", "a/b/c"]).to_string();
         for o in ops.iter_mut() {
             o.out_sub = sub.clone();
@@ -1073,6 +1145,9 @@ pub fn gen_case(property: &str, seed: u64, tier: Tier) -> Case {
 }
 
 pub fn evaluate(case: &Case, base: &Path, name: &str) -> EvalResult {
+    // relative output names (the `<bare>` path shape) resolve against the working directory
+    let _ = std::fs::create_dir_all(base);
+    let _ = std::env::set_current_dir(base);
     let mut sc = Scratch::new(base, name);
     let mut res = EvalResult {
         violations: vec![],
